@@ -28,7 +28,7 @@ type c09Case struct {
 }
 
 var c09States = []string{"idle", "reader-blocked", "half-read", "closeread", "writer-blocked", "writer-open", "ping-pending"}
-var c09Advs = []string{"silent-reading", "silent-not-reading", "stall", "flood-frames", "flood-payload", "half-close", "echo-delay", "violation"}
+var c09Advs = []string{"silent-reading", "silent-not-reading", "stall", "flood-frames", "flood-fragments", "flood-payload", "half-close", "echo-delay", "violation"}
 var c09StallFrames = []string{"data7", "data16", "data64", "ping", "close", "cont"}
 
 func c09StallBytes(frame string, libIsClient bool) []byte {
@@ -181,6 +181,22 @@ func runC09(t fataler, c c09Case) (string, c09Result) {
 					}
 				}
 			})
+		case "flood-fragments":
+			// one message that never ends: non-final fragments for ever
+			e.Go(func() {
+				for i := 0; ; i++ {
+					op := byte(ref.OpCont)
+					if i == 0 {
+						op = ref.OpBinary
+					}
+					if p.send(ref.Frame{Fin: false, Opcode: op, Payload: expand(ckPattern, uint64(i), 200)}) != nil {
+						return
+					}
+					if !e.sleep(c.Delay) {
+						return
+					}
+				}
+			})
 		case "flood-payload":
 			huge := uint64(1) << 40
 			hdr := ref.Frame{Fin: true, Opcode: ref.OpBinary, DeclaredLen: &huge}
@@ -206,7 +222,7 @@ func runC09(t fataler, c c09Case) (string, c09Result) {
 	switch c.Adv {
 	case "silent-reading", "silent-not-reading", "echo-delay":
 		res.Withheld = true
-	case "flood-frames", "flood-payload", "half-close", "violation":
+	case "flood-frames", "flood-fragments", "flood-payload", "half-close", "violation":
 		res.Withheld = true
 	}
 	if c.When == "before" {
@@ -325,7 +341,9 @@ func TestC09(t *testing.T) {
 		}
 		var msg string
 		var res c09Result
+		stop := watchDeadlock(t, "C09", c)
 		synctest.Test(t, func(t *testing.T) { msg, res = runC09(t, c) })
+		stop()
 		rec.Case(res.Withheld, c09Key(c), "state:"+c.State, "adv:"+c.Adv, "op:"+c.Op)
 		if idx%97 == 0 {
 			rec.Sample(c)
@@ -342,7 +360,7 @@ func TestC09(t *testing.T) {
 				}
 				for _, when := range []string{"before", "after"} {
 					for _, adv := range c09Advs {
-						if op == "closeread-data" && when == "before" && (adv == "stall" || adv == "flood-payload" || adv == "violation" || adv == "half-close" || adv == "flood-frames") {
+						if op == "closeread-data" && when == "before" && (adv == "stall" || adv == "flood-payload" || adv == "violation" || adv == "half-close" || adv == "flood-frames" || adv == "flood-fragments") {
 							continue // the data message could not be delivered behind it
 						}
 						switch adv {
@@ -366,8 +384,8 @@ func TestC09(t *testing.T) {
 							for _, d := range []time.Duration{0, time.Second, 4900 * time.Millisecond, 5100 * time.Millisecond, 20 * time.Second} {
 								one(c09Case{Client: client, State: st, Adv: adv, Delay: d, Op: op, When: when})
 							}
-						case "flood-frames", "flood-payload":
-							for _, d := range []time.Duration{time.Millisecond, 300 * time.Millisecond} {
+						case "flood-frames", "flood-payload", "flood-fragments":
+							for _, d := range []time.Duration{time.Millisecond, 300 * time.Millisecond, 4 * time.Second} {
 								one(c09Case{Client: client, State: st, Adv: adv, Delay: d, Op: op, When: when})
 							}
 						default:
@@ -408,12 +426,14 @@ func TestC09Mixed(t *testing.T) {
 			c.K = rapid.IntRange(1, len(c09StallBytes(c.Frame, c.Client))).Draw(rt, "k")
 		case "echo-delay":
 			c.Delay = time.Duration(rapid.IntRange(0, 21000).Draw(rt, "delayMs")) * time.Millisecond
-		case "flood-frames", "flood-payload":
-			c.Delay = time.Duration(rapid.IntRange(1, 2000).Draw(rt, "gapMs")) * time.Millisecond
+		case "flood-frames", "flood-payload", "flood-fragments":
+			c.Delay = time.Duration(rapid.IntRange(1, 4900).Draw(rt, "gapMs")) * time.Millisecond
 		}
 		var msg string
 		var res c09Result
+		stop := watchDeadlock(t, "C09", c)
 		rapid.SyncTest(rt, func(rt *rapid.T) { msg, res = runC09(rt, c) })
+		stop()
 		rec.Case(res.Withheld, "mixed|"+c09Key(c), "state:"+c.State, "adv:"+c.Adv, "op:"+c.Op, "mixed")
 		if msg != "" {
 			rt.Fatalf("C09 %+v: %s", c, msg)
